@@ -17,7 +17,11 @@
 #include <signal.h>
 #include <unistd.h>
 
-// ---------------------------------------------------------------- tracking allocator
+// ---------------------------------------------------------------- guarding, tracking allocator
+// Every block ENDS at a PROT_NONE page (the buffer at byte granularity, other blocks 16-byte aligned), so an
+// access past what zix_ring_new really allocated faults instead of landing in malloc slack.  Blocks are cached
+// per size because the schedule search creates millions of rings.
+#include <sys/mman.h>
 typedef struct {
   ZixAllocator base;
   void*        p[8];
@@ -25,39 +29,81 @@ typedef struct {
   int          k;
 } Track;
 
+typedef struct { char* map; size_t maplen; char* user; size_t size; int used; } GBlock;
+#define NGB 64
+static GBlock gb[NGB];
+static long   pagesz;
+
+static void* g_alloc(size_t size, int bytewise)
+{
+  if (!pagesz) pagesz = sysconf(_SC_PAGESIZE);
+  size_t want = size ? size : 1;
+  for (int i = 0; i < NGB; ++i)
+    if (gb[i].map && !gb[i].used && gb[i].size == want) { gb[i].used = 1; memset(gb[i].user, 0, want); return gb[i].user; }
+  int slot = -1;
+  for (int i = 0; i < NGB; ++i) if (!gb[i].map) { slot = i; break; }
+  if (slot < 0)
+    for (int i = 0; i < NGB; ++i) if (!gb[i].used) { munmap(gb[i].map, gb[i].maplen); gb[i].map = NULL; slot = i; break; }
+  if (slot < 0) return NULL;
+  size_t body = (want + (size_t)pagesz - 1) / (size_t)pagesz * (size_t)pagesz;
+  char*  m    = (char*)mmap(NULL, body + (size_t)pagesz, PROT_READ | PROT_WRITE, MAP_PRIVATE | MAP_ANONYMOUS, -1, 0);
+  if (m == MAP_FAILED) return NULL;
+  mprotect(m + body, (size_t)pagesz, PROT_NONE);
+  size_t off = body - want;
+  if (!bytewise) off &= ~(size_t)15;
+  gb[slot].map = m; gb[slot].maplen = body + (size_t)pagesz; gb[slot].user = m + off; gb[slot].size = want; gb[slot].used = 1;
+  return gb[slot].user;
+}
+static void g_free(void* p)
+{
+  if (!p) return;
+  for (int i = 0; i < NGB; ++i) if (gb[i].map && gb[i].user == p) { gb[i].used = 0; return; }
+}
+
 static void* t_malloc(ZixAllocator* a, size_t size)
 {
   Track* t = (Track*)a;
-  void*  p = calloc(1, size ? size : 1);
+  void*  p = g_alloc(size, t->k >= 1); // first block = the ring object, second = its buffer
   if (t->k < 8) { t->p[t->k] = p; t->n[t->k] = size; t->k++; }
   return p;
 }
 static void* t_calloc(ZixAllocator* a, size_t nm, size_t size) { return t_malloc(a, nm * size); }
-static void* t_realloc(ZixAllocator* a, void* p, size_t size) { (void)a; return realloc(p, size); }
-static void  t_free(ZixAllocator* a, void* p) { (void)a; free(p); }
+static void* t_realloc(ZixAllocator* a, void* p, size_t size) { (void)a; (void)p; (void)size; return NULL; }
+static void  t_free(ZixAllocator* a, void* p) { (void)a; g_free(p); }
 static void* t_aalloc(ZixAllocator* a, size_t al, size_t size) { (void)al; return t_malloc(a, size); }
-static void  t_afree(ZixAllocator* a, void* p) { (void)a; free(p); }
+static void  t_afree(ZixAllocator* a, void* p) { (void)a; g_free(p); }
 
 static Track track = {{t_malloc, t_calloc, t_realloc, t_free, t_aalloc, t_afree}, {0}, {0}, 0};
 
 static long off_wh = -1, off_rh = -1; // offsets of the two heads inside the ring object (found by calibration)
 
-static ZixRing* ring_new(unsigned k)
+// ring of logical size 2^k created with the requested size req (2^(k-1) < req <= 2^k)
+static ZixRing* ring_new(unsigned k, uint32_t req)
 {
   track.k   = 0;
-  ZixRing* r = zix_ring_new(&track.base, 1U << k);
+  ZixRing* r = zix_ring_new(&track.base, req);
   if (!r || track.k < 2) return NULL;
   if (off_wh >= 0) {
-    vt_layout(track.p[0], track.n[0], (char*)track.p[0] + off_wh, (char*)track.p[0] + off_rh, track.p[1], track.n[1]);
+    vt_layout(track.p[0], track.n[0], (char*)track.p[0] + off_wh, (char*)track.p[0] + off_rh, track.p[1], track.n[1],
+              (size_t)1 << k);
   }
   return r;
+}
+
+// "k" or "k/req"
+static unsigned parse_size(const char* s, uint32_t* req)
+{
+  unsigned    k = (unsigned)atoi(s);
+  const char* q = strchr(s, '/');
+  *req          = q ? (uint32_t)strtoul(q + 1, 0, 10) : (1U << k);
+  return k;
 }
 
 // find the heads by what the API does to the object, not by assuming a layout
 static int calibrate(void)
 {
   vt_off();
-  ZixRing* r = ring_new(3);
+  ZixRing* r = ring_new(3, 8);
   if (!r) return 0;
   size_t         n    = track.n[0];
   unsigned char* base = (unsigned char*)track.p[0];
@@ -84,6 +130,14 @@ static int calibrate(void)
   return off_wh >= 0 && off_rh >= 0 && off_wh != off_rh;
 }
 
+static void on_segv(int sig)
+{
+  (void)sig;
+  static const char m[] = "OOB-CRASH (access outside every allocated block faulted on a guard page)\n";
+  if (write(1, m, sizeof(m) - 1)) {}
+  _exit(4);
+}
+
 static void on_alarm(int sig)
 {
   (void)sig;
@@ -101,10 +155,11 @@ static void fill(unsigned char* p, uint32_t n)
 
 static void trace_case(char** tok, int nt)
 {
-  unsigned k = (unsigned)atoi(tok[1]);
+  uint32_t req;
+  unsigned k = parse_size(tok[1], &req);
   uint32_t N = 1U << k, r0 = (uint32_t)strtoul(tok[2], 0, 10), w0 = (uint32_t)strtoul(tok[3], 0, 10);
   vt_off();
-  ZixRing* ring = ring_new(k);
+  ZixRing* ring = ring_new(k, req);
   if (!ring) { puts("NO-RING"); return; }
   unsigned char* tmp = (unsigned char*)malloc((size_t)N + 8);
   // setup through the API: r0 junk bytes in and out, then the content
@@ -144,6 +199,7 @@ static void trace_case(char** tok, int nt)
     free(b);
   }
   alarm(0);
+  if (vt_oob()) printf(" OOB"); // some access of the ops (or of the setup) fell outside the allocated buffer
   printf(" || ");
   vt_trace_end(stdout);
   putchar('\n');
@@ -167,6 +223,8 @@ typedef struct {
 static unsigned char stream[MAXSTREAM];
 static long          avail[MAXSTREAM];
 static int           nstream;
+static long          bnd[MAXOPS + 1]; // commit boundaries: stream length after each successful write / commit
+static int           nbnd;
 // reader log
 typedef struct { char op; uint32_t n, ret; long t_end; unsigned char bytes[64]; } RdEv;
 static RdEv rdev[MAXOPS];
@@ -191,6 +249,7 @@ static void writer_fn(void* arg)
       uint32_t ret = zix_ring_write(p->ring, b, o.n);
       if (ret == o.n) {
         for (uint32_t j = 0; j < o.n && nstream < MAXSTREAM; ++j) { stream[nstream] = b[j]; avail[nstream++] = t0; }
+        if (nbnd <= MAXOPS) bnd[nbnd++] = nstream;
       } else if (ret != 0) api_bad = 1;
       txok = 0;
       break;
@@ -209,6 +268,7 @@ static void writer_fn(void* arg)
       vt_call_begin(2);
       zix_ring_commit_write(p->ring, &tx);
       for (int j = 0; j < npend && nstream < MAXSTREAM; ++j) { stream[nstream] = pend[j]; avail[nstream++] = t0; }
+      if (nbnd <= MAXOPS) bnd[nbnd++] = nstream;
       npend = 0; txok = 0;
       break;
     case 'S': vt_call_begin(2); if (zix_ring_write_space(p->ring) >= (1U << 31)) api_bad = 1; break;
@@ -240,13 +300,29 @@ static void reader_fn(void* arg)
 // the spec: reads return, in order and untorn, bytes already committed; nothing is lost
 static int oracle(ZixRing* ring, uint32_t N)
 {
-  long pos = 0;
+  long pos = 0, known = 0; // known: stream position the reader has already seen committed (heads are published
+                           // only at commit boundaries and the reader's view never goes back)
   if (api_bad) { snprintf(oracle_msg, sizeof oracle_msg, "a call returned neither 0 nor its size"); return 0; }
   for (int i = 0; i < nrdev; ++i) {
     RdEv* e = &rdev[i];
     if (e->op == 's') {
       if (e->ret > N - 1U) { snprintf(oracle_msg, sizeof oracle_msg, "read_space=%u exceeds capacity", e->ret); return 0; }
+      long vis = pos + e->ret;
+      int  isb = vis == 0;
+      for (int j = 0; j < nbnd; ++j) isb |= bnd[j] == vis;
+      if (!isb) { snprintf(oracle_msg, sizeof oracle_msg, "reader call %d: read_space=%u ends inside a write (part of a write visible before its commit)", i, e->ret); return 0; }
+      if (vis < known) { snprintf(oracle_msg, sizeof oracle_msg, "reader call %d: read_space=%u is less than what the reader had already seen committed", i, e->ret); return 0; }
+      known = vis;
       continue;
+    }
+    if (e->ret == 0 && e->n > 0 && pos + e->n <= known) {
+      snprintf(oracle_msg, sizeof oracle_msg, "reader call %d (%c%u) failed although the reader had already seen a commit covering it (a write became visible in parts)", i, e->op, e->n);
+      return 0;
+    }
+    if (e->ret) {
+      long endp = pos + e->ret, b = nstream;
+      for (int j = nbnd - 1; j >= 0; --j) if (bnd[j] >= endp) b = bnd[j];
+      if (b > known) known = b;
     }
     if (e->ret != 0 && e->ret != e->n) { snprintf(oracle_msg, sizeof oracle_msg, "reader call %d returned %u for size %u", i, e->ret, e->n); return 0; }
     if (pos + e->ret > nstream) { snprintf(oracle_msg, sizeof oracle_msg, "reader call %d consumed bytes never committed", i); return 0; }
@@ -276,17 +352,18 @@ static int oracle(ZixRing* ring, uint32_t N)
 static int taken[MAXCH], alts[MAXCH];
 
 // one schedule: fresh ring, run, judge.  returns 1 ok, 0 fail (message in oracle_msg)
-static int one_run(unsigned k, Prog* wp, Prog* rp, const int* choices, int nchoices, VtRun* run)
+static int one_run(unsigned k, uint32_t req, Prog* wp, Prog* rp, const int* choices, int nchoices, VtRun* run)
 {
   vt_off();
-  ZixRing* ring = ring_new(k);
+  ZixRing* ring = ring_new(k, req);
   wp->ring = rp->ring = ring;
-  nstream = nrdev = 0; api_bad = 0; datactr = 0; oracle_msg[0] = 0;
+  nstream = nrdev = nbnd = 0; api_bad = 0; datactr = 0; oracle_msg[0] = 0;
   run->choices = choices; run->nchoices = nchoices; run->taken = taken; run->alts = alts; run->cap = MAXCH;
   vt_sched_run(writer_fn, wp, reader_fn, rp, run);
   int ok = 1;
   if (run->overrun || run->race) { snprintf(oracle_msg, sizeof oracle_msg, "%s", run->why); ok = 0; }
   else ok = oracle(ring, 1U << k);
+  if (ok && vt_oob()) { snprintf(oracle_msg, sizeof oracle_msg, "OOB: access outside the allocated buffer"); ok = 0; }
   vt_off();
   zix_ring_free(ring);
   return ok;
@@ -305,7 +382,8 @@ static void print_fail(VtRun* run)
 
 static void sched_case(char** tok, int nt)
 {
-  unsigned k = (unsigned)atoi(tok[1]);
+  uint32_t req;
+  unsigned k = parse_size(tok[1], &req);
   Prog     wp = {0}, rp = {0};
   int      i = 2;
   for (; i < nt && strcmp(tok[i], "/"); ++i)
@@ -321,7 +399,7 @@ static void sched_case(char** tok, int nt)
     int n = 0;
     if (i + 1 < nt)
       for (char* s = strtok(tok[i + 1], ","); s && n < MAXCH; s = strtok(NULL, ",")) ch[n++] = atoi(s);
-    if (!one_run(k, &wp, &rp, ch, n, &run)) { print_fail(&run); return; }
+    if (!one_run(k, req, &wp, &rp, ch, n, &run)) { print_fail(&run); return; }
     runs = 1; steps = run.steps;
   } else if (tok[i][0] == 'S') {
     unsigned long seed = strtoul(tok[i + 1], 0, 10);
@@ -333,14 +411,14 @@ static void sched_case(char** tok, int nt)
         x ^= x << 13; x ^= x >> 7; x ^= x << 17;
         ch[j] = (int)((x >> 33) % 6);
       }
-      if (!one_run(k, &wp, &rp, ch, 512, &run)) { print_fail(&run); return; }
+      if (!one_run(k, req, &wp, &rp, ch, 512, &run)) { print_fail(&run); return; }
       steps += run.steps;
     }
   } else { // exhaustive depth-first enumeration of all choice sequences
     long max = atol(tok[i + 1]);
     int  n   = 0;
     for (;;) {
-      int ok = one_run(k, &wp, &rp, ch, n, &run);
+      int ok = one_run(k, req, &wp, &rp, ch, n, &run);
       ++runs; steps += run.steps;
       if (!ok) { print_fail(&run); return; }
       if (run.ntaken > MAXCH) { puts("FAIL schedule too long for the enumerator"); return; }
@@ -364,6 +442,8 @@ int main(void)
   size_t cap  = 0;
   char*  tok[256];
   signal(SIGALRM, on_alarm);
+  signal(SIGSEGV, on_segv);
+  signal(SIGBUS, on_segv);
   alarm(20);
   int cal = calibrate();
   alarm(0);
